@@ -6,7 +6,10 @@ under the documented rendering maps; sorted text file list is a permutation; std
 regenerated from the Rust source).
 Correspondence: the real binary (`show --json`, `show` piped = tab-delimited, `--terminal show`, the same bytes on
 stdin) against the extracted Summary model on generated torrents, and against an independent Python reading of the
-file (lib.bdecode_strict + hashlib + datetime + posixpath) which is the direct oracle."""
+file (lib.bdecode_strict + hashlib + datetime + posixpath) which is the direct oracle.
+Since X11 the model side runs with the concrete calendar (Model/Calendar.v, chrono 0.4.38's text and range) and the concrete
+Display for Bytes (Model/ByteSize.v); `calendar_sweep` puts a deterministic boundary sweep and a few thousand random second
+counts to the real binary, the extracted `Calendar.cal` / `cal_parse` and the Python calendar of this file."""
 import zlib
 import datetime, hashlib, ipaddress, json, os, posixpath, re, shutil, tempfile
 import lib
@@ -22,9 +25,13 @@ MANIFEST = dict(
          "in all three renderings and on stdin against the extracted model and an independent Python reader.",
     ref="DESIGN.md section 5, C07",
     technique="Coq proof over a Gallina model + translator-generated tables + model/implementation correspondence run",
-    note="Assumed (Section variables, validated in the runs): chrono's calendar rendering, Bytes Display (C16), url-crate "
-         "normal forms of update-url and node hosts (generated in normal form). Trusted: Coq kernel, tools/rs2v_summary.py, "
-         "extraction + runner/driver.d/summary.ml, Python oracle in tools/props/c07.py. Info hash itself is C04's.")
+    note="Modelled and proved since X11 (no longer assumed): chrono 0.4.38's calendar rendering of the creation date for every "
+         "second count (text denotes exactly the stored integer, valid proleptic-Gregorian fields, strictly monotone, defined "
+         "exactly up to 8210266876799 = 262142-12-31 23:59:59, the Creation Date row determines the stored integer) and Bytes "
+         "Display (C16's model); both tied to the real binary by the run (boundary sweep + random second counts). Assumed "
+         "(Section variables, validated in the runs): url-crate normal forms of update-url and node hosts (generated in normal "
+         "form). Trusted: Coq kernel, tools/rs2v_summary.py, extraction + runner/driver.d/summary.ml, calendar.ml, Python oracle "
+         "in tools/props/c07.py. Info hash itself is C04's.")
 
 U63 = (1 << 63) - 1
 LABELS = ["Name", "Comment", "Creation Date", "Created By", "Source", "Info Hash", "Torrent Size", "Content Size",
@@ -89,6 +96,8 @@ def gdate(r):
         return r.choice([0, 1, 59, 86399, 86400, 951782400, 951868799, 4102444800, 253402300799, 1 << 31, (1 << 31) - 1, 1 << 32])
     if k < 0.8:
         return r.randrange(253402300800, 6000000000000)  # years 10000 .. ~190000 (chrono prints +YYYYY)
+    if k < 0.87:
+        return r.choice([CHRONO_MAX, CHRONO_MAX - 1, CHRONO_MAX + 1, CHRONO_MAX - 86400, r.randrange(6000000000000, CHRONO_MAX + 1)])
     return r.choice([U63, 1 << 62, 1 << 50, 1 << 44, r.getrandbits(63) | (1 << 50)])  # outside chrono's range
 
 
@@ -350,22 +359,48 @@ def civil(days):
     return (y + (1 if m <= 2 else 0), m, d)
 
 
-CHRONO_SURE_OUT = 1 << 44      # > 262143 years: certainly outside chrono's NaiveDate range
-CHRONO_SURE_IN = 6000000000000  # < year 200000: certainly inside
+# the largest second count chrono 0.4.38 has a date for: 262142-12-31 23:59:59 (NaiveDate's MAX_YEAR = (i32::MAX >> 13) - 1).
+# Measured on the real binary (8210266876799 prints `+262142-12-31 23:59:59 UTC`, 8210266876800 prints the integer), equal to
+# Calendar.cal_max, and re-measured in every run by calendar_sweep.
+CHRONO_MAX = 8210266876799
+
+
+def days_from_civil(y, m, d):
+    """(y, m, d), proleptic Gregorian -> days since 1970-01-01, by counting: whole years, their leap days, whole months
+    (own code, deliberately not the inverse of `civil` above: a table of month lengths and the 4/100/400 rule)"""
+    leap = lambda yy: yy % 4 == 0 and (yy % 100 != 0 or yy % 400 == 0)
+    y0 = y - 1
+    days = 365 * y0 + y0 // 4 - y0 // 100 + y0 // 400                 # days before 1 January of year y, from 0001-01-01
+    days += sum([31, 29 if leap(y) else 28, 31, 30, 31, 30, 31, 31, 30, 31, 30, 31][:m - 1]) + d - 1
+    return days - 719162                                              # 1970-01-01 is day 719162 from 0001-01-01
 
 
 def calendar(ts):
-    """text of the `creation date` row: chrono's `YYYY-MM-DD HH:MM:SS UTC`, or the plain number of seconds when the
-    date is not representable. Returns None in the narrow band where this oracle does not know chrono's limit."""
-    if ts >= CHRONO_SURE_OUT:
+    """text of the `creation date` row: chrono's `YYYY-MM-DD HH:MM:SS UTC` (`+` and five or more digits from the year 10000),
+    or the plain number of seconds when chrono has no date for it (beyond the year 262142)"""
+    if ts > CHRONO_MAX:
         return str(ts)
-    if ts > CHRONO_SURE_IN:
-        return None
     if ts < 253402300800:
         return (datetime.datetime(1970, 1, 1) + datetime.timedelta(seconds=ts)).strftime("%Y-%m-%d %H:%M:%S UTC")
     y, m, d = civil(ts // 86400)
     s = ts % 86400
     return "+%d-%02d-%02d %02d:%02d:%02d UTC" % (y, m, d, s // 3600, s // 60 % 60, s % 60)
+
+
+CAL_TEXT = re.compile(r"(\d{4}|\+[1-9]\d{4,})-(\d\d)-(\d\d) (\d\d):(\d\d):(\d\d) UTC")
+
+
+def calendar_read(text):
+    """the second count a printed calendar text denotes (None when it is not one): the oracle's own reading of the row"""
+    m = CAL_TEXT.fullmatch(text)
+    if not m:
+        return None
+    y, mo, d, hh, mi, ss = (int(x) for x in m.groups())
+    leap = y % 4 == 0 and (y % 100 != 0 or y % 400 == 0)
+    if not (1 <= mo <= 12 and 1 <= d <= [31, 29 if leap else 28, 31, 30, 31, 30, 31, 31, 30, 31, 30, 31][mo - 1]
+            and hh < 24 and mi < 60 and ss < 60):
+        return None
+    return days_from_civil(y, mo, d) * 86400 + hh * 3600 + mi * 60 + ss
 
 
 def host_display(h):
@@ -487,8 +522,6 @@ def expected_tab(x):
     for label, vals in text_rows(x):
         if label == "Announce List":
             vals = [u for tier in vals for u in tier]
-        if None in vals:
-            return None
         out.append(label.lower() + "\t" + "\t".join(vals) + "\n")
     files = [x["name"]] if x["_paths"] is None else [x["name"] + "/" + "/".join(p) for p in sorted_paths(x)]
     out.append("files\t" + "\t".join(files) + "\n")
@@ -527,8 +560,6 @@ def expected_term_canon(x):
             for i, tier in enumerate(vals):
                 toks.append("Tier %d:" % (i + 1)); toks += tier
         else:
-            if None in vals:
-                return None
             toks += vals
     toks.append("Files")
     toks += [x["name"]] if x["_paths"] is None else tree_tokens(x)
@@ -690,38 +721,15 @@ def run_with_fifo(ctx, d, argv, data, env):
 
 
 def model_line(data, runs=None):
-    """request for the extracted model: input, info hash (computed here with hashlib; C04 owns it), and the tables
-    that instantiate the Section variables: calendar text, humanised sizes, host display, url normal form."""
+    """request for the extracted model: input, info hash (computed here with hashlib; C04 owns it), and the tables that
+    instantiate the two Section variables still abstract: host display and url normal form. The calendar text and the
+    humanised sizes are the model's own since X11 (Calendar.cal, ByteSize.bs_display through ShowConcrete.show_concrete)."""
     env = []
     ih = b""
     try:
         v, _ = lib.bdecode_strict(data)
         ih = hashlib.sha1(lib.info_span(data)).hexdigest().encode()
         info = lib.dget(v, "info")
-        cd = lib.dget(v, "creation date")
-        if isinstance(cd, int) and cd >= 0:
-            c = calendar(cd)
-            if c is not None and c != str(cd):
-                env.append((b"c%d" % cd, c.encode()))
-        nums = {len(data)}
-        for d in [info] + (lib.dget(info, "files") if isinstance(lib.dget(info, "files"), list) else []):
-            n = lib.dget(d, "length")
-            if isinstance(n, int) and n >= 0:
-                nums.add(n)
-        fl = lib.dget(info, "files")
-        if isinstance(fl, list):
-            tot = 0
-            for f in fl:
-                n = f[0] if isinstance(f, list) and f else lib.dget(f, "length")     # dictionary or sequence form
-                if isinstance(n, int) and not isinstance(n, bool) and n >= 0:
-                    tot += n
-            nums.add(tot)
-        pl = lib.dget(info, "piece length")
-        if isinstance(pl, int) and pl >= 0:
-            nums.add(pl)
-        for n in nums:
-            if n < 1 << 64:
-                env.append((b"h%d" % n, human(n).encode()))
         nodes = lib.dget(v, "nodes")
         if isinstance(nodes, list):
             for nd in nodes:
@@ -744,7 +752,7 @@ def model_line(data, runs=None):
     except Exception:
         pass
     envs = ",".join("%s:%s" % (lib.hexs(k), lib.hexs(val)) for k, val in env) if env else "~"
-    return "c07show %s %s %s" % (lib.hexs(data), lib.hexs(ih), envs)
+    return "c07showc %s %s %s" % (lib.hexs(data), lib.hexs(ih), envs)
 
 
 def parse_jv(text):
@@ -806,6 +814,156 @@ def compare_model(reply, runs):
     if runs["term"][0] == 0 and lib.unhex(term) != runs["term"][1]:
         diffs.append("terminal bytes differ: " + first_diff(runs["term"][1], lib.unhex(term)))
     return "ok", diffs
+
+
+# ---------------------------------------------------------------- the calendar against the real binary (X11)
+
+def dated_torrent(ts):
+    """a minimal single-file torrent whose only optional key is `creation date`"""
+    return b"d13:creation datei%de4:infod6:lengthi1e4:name1:n12:piece lengthi16384e6:pieces0:ee" % ts
+
+
+def calendar_boundaries():
+    """deterministic sweep of second counts at the seams of the calendar and of chrono's range"""
+    leap = lambda y: y % 4 == 0 and (y % 100 != 0 or y % 400 == 0)
+    out = {}
+
+    def add(ts, why):
+        for k in (-1, 0, 1):
+            if 0 <= ts + k < 1 << 64:
+                out.setdefault(ts + k, why if k == 0 else "%s%+d" % (why, k))
+    years = [1970, 1971, 1972, 1999, 2000, 2001, 2004, 2037, 2038, 2100, 2101, 2200, 2300, 2400, 9999, 10000, 10001, 10100, 10400,
+             99999, 100000, 100001, 262000, 262100, 262141, 262142]
+    for y in years:
+        for m in range(1, 13):
+            add(days_from_civil(y, m, 1) * 86400, "first second of %d-%02d" % (y, m))      # -1: last second of the month before
+        add(days_from_civil(y, 2, 28) * 86400 + 86399, "%d-02-28 23:59:59 (%s year)" % (y, "leap" if leap(y) else "common"))
+        add(days_from_civil(y, 3, 1) * 86400, "%d-03-01" % y)
+        add(days_from_civil(y, 12, 31) * 86400 + 86399, "last second of %d" % y)
+        for hh, mm, ss in ((0, 0, 59), (0, 59, 59), (12, 0, 0), (23, 59, 0)):
+            add(days_from_civil(y, 6, 15) * 86400 + hh * 3600 + mm * 60 + ss, "time of day")
+    for ts, why in ((0, "epoch"), (59, "minute"), (3599, "hour"), (86399, "day"), (946684799, "1999-12-31 23:59:59"),
+                    ((1 << 31) - 1, "2^31-1"), (1 << 31, "2^31 (2038-01-19)"), ((1 << 32) - 1, "2^32-1"), (1 << 32, "2^32"),
+                    (253402300799, "9999-12-31 23:59:59"), (253402300800, "year 10000"), (1 << 40, "2^40"), (1 << 43, "2^43"),
+                    (CHRONO_MAX - 1, "largest-1"), (CHRONO_MAX, "largest representable"), (CHRONO_MAX + 1, "largest+1"),
+                    (days_from_civil(262143, 1, 1) * 86400 + 86400, "second day of 262143"),
+                    ((1 << 31) * 86400, "day count 2^31"), (((1 << 31) - 719163 - 365) * 86400, "day count near i32::MAX"),
+                    (1 << 53, "2^53"), (1 << 62, "2^62"), ((1 << 63) - 1, "2^63-1"), (1 << 63, "2^63"), ((1 << 64) - 1, "2^64-1")):
+        add(ts, why)
+    return sorted(out.items())
+
+
+def calendar_random(r, n):
+    out = []
+    for _ in range(n):
+        k = r.random()
+        if k < 0.45:                                   # log-uniform in size, inside chrono's range
+            bits = r.randrange(1, 44)
+            out.append(min(r.getrandbits(bits) | (1 << (bits - 1)), CHRONO_MAX))
+        elif k < 0.7:                                  # uniform over the range
+            out.append(r.randrange(0, CHRONO_MAX + 1))
+        elif k < 0.8:                                  # today's clocks
+            out.append(r.randrange(0, 1 << 32))
+        else:                                          # log-uniform in size over the whole u64
+            bits = r.randrange(1, 65)
+            out.append(r.getrandbits(bits) | (1 << (bits - 1)))
+    return out
+
+
+def calendar_sweep(ctx, tmp):
+    """Calendar.cal (the extracted model), the Creation Date row the REAL binary prints (`imdl torrent show` piped, on a
+    minimal torrent with that creation date) and this file's Python calendar, three ways, on the boundary sweep and on random
+    second counts; the specification-side reader (Calendar.cal_parse, and the oracle's calendar_read) is applied to the text
+    the real binary printed and must give back the stored integer."""
+    cases = [(ts, "boundary", why) for ts, why in calendar_boundaries()]
+    cases += [(ts, "random", "random") for ts in calendar_random(ctx.rng, ctx.n(3000, 60000))]
+    info_hash = hashlib.sha1(b"d6:lengthi1e4:name1:n12:piece lengthi16384e6:pieces0:e").hexdigest().encode()
+
+    def run_one(c):
+        ts = c[0]
+        d = tempfile.mkdtemp(dir=tmp)
+        data = dated_torrent(ts)
+        with open(os.path.join(d, "t.torrent"), "wb") as f:
+            f.write(data)
+        env = {"NO_COLOR": "1"}
+        tz = TIME_ZONES[ts % len(TIME_ZONES)]
+        if tz is not None:
+            env["TZ"] = tz
+        res = ctx.imdl(["torrent", "show", "--input", "t.torrent"], cwd=d, env=env, timeout=60)
+        shutil.rmtree(d, ignore_errors=True)
+        return res
+    outs = lib.pmap(run_one, cases)
+    rows = []
+    for (rc, out, err) in outs:
+        row = None
+        if rc == 0:
+            for line in out.split(b"\n"):
+                if line.startswith(b"creation date\t"):
+                    row = line[len(b"creation date\t"):]
+        rows.append(row)
+    lines = []
+    for (ts, _, _), row in zip(cases, rows):
+        lines.append("cal %d" % ts)
+        lines.append("calrange %d" % ts)
+        lines.append("calparse %s" % lib.hexs(row if row is not None else b""))
+        lines.append("c07showc %s %s ~" % (lib.hexs(dated_torrent(ts)), lib.hexs(info_hash)))
+    replies = ctx.model(lines)
+    for i, ((ts, kind, why), (rc, out, err), row) in enumerate(zip(cases, outs, rows)):
+        m_cal, m_range, m_parse, m_show = replies[4 * i: 4 * i + 4]
+        ctx.cov["evaluations"] += 1
+        ctx.cov["traces_validated_against_impl"] += 1
+        ctx.count("calendar_" + kind)
+        ctx.distinct(("calendar", ts))
+        case = {"kind": "calendar-" + kind, "why": why, "creation_date": ts, "torrent_hex": dated_torrent(ts).hex(), "rc": rc,
+                "row": None if row is None else row.decode("utf-8", "replace"), "stderr": err.decode("utf-8", "replace")[-300:],
+                "model": {"cal": m_cal, "calrange": m_range, "calparse": m_parse, "show": m_show[:400]},
+                "reproduce": "printf %s | xxd -r -p > t.torrent; imdl torrent show --input t.torrent | cat" % dated_torrent(ts).hex()}
+        # -- the direct oracle: what the row must be, from the integer alone
+        if ts >= 1 << 63:
+            # the integer does not fit the i64 every bencode integer is read into: the file is refused (exit 1, no report)
+            ctx.count("calendar_form_refused_ge_2^63")
+            if rc == 0:
+                ctx.violation("model-impl-disagreement", "creation date %d >= 2^63 but the binary printed a report" % ts, case)
+            elif rc != 1:
+                ctx.violation("oracle-failure", "show exits abnormally (%d) on creation date %d" % (rc, ts), case)
+            elif m_cal != "NONE" or m_range != "OK 0" or m_show != "REJ":
+                ctx.cov["disagreements_checked"] += 1
+                ctx.violation("model-impl-disagreement", "model has a calendar text / a report for creation date %d >= 2^63 (%s, %s, %s)"
+                              % (ts, m_cal, m_range, m_show[:40]), case)
+            continue
+        want = calendar(ts)
+        form = "integer" if ts > CHRONO_MAX else "year>9999" if ts >= 253402300800 else "year<=9999"
+        ctx.count("calendar_form_" + form)
+        if rc != 0 or row is None:
+            ctx.violation("oracle-failure", "show prints no Creation Date row for creation date %d (exit %d)" % (ts, rc), case)
+            continue
+        if row != want.encode():
+            ctx.violation("oracle-failure", "Creation Date row for %d (%s) is %r, the calendar says %r" % (ts, why, row, want), case)
+            continue
+        if ts <= CHRONO_MAX and calendar_read(want) != ts:
+            ctx.violation("oracle-failure", "the printed calendar text %r does not denote the stored integer %d (it denotes %r)"
+                          % (want, ts, calendar_read(want)), case)
+            continue
+        # -- model against implementation
+        m_want = ("OK " + lib.hexs(row)) if ts <= CHRONO_MAX else "NONE"
+        p_want = ("OK %d" % ts) if ts <= CHRONO_MAX else "NONE"      # a decimal numeral is not a calendar text
+        r_want = "OK 1" if ts <= CHRONO_MAX else "OK 0"
+        diffs = []
+        if m_cal != m_want:
+            diffs.append("Calendar.cal %d = %s, the binary prints %r" % (ts, m_cal, row))
+        if m_range != r_want:
+            diffs.append("Calendar.chrono_accepts %d = %s, the binary prints %r" % (ts, m_range, row))
+        if m_parse != p_want:
+            diffs.append("Calendar.cal_parse of the printed row %r = %s, stored %d" % (row, m_parse, ts))
+        if not m_show.startswith("OK ") or lib.unhex(m_show.split(" ")[2]) != out:
+            diffs.append("the whole tab-delimited report differs between model (%s) and binary (%r)" % (m_show[:60], out[:200]))
+        if diffs:
+            ctx.cov["disagreements_checked"] += 1
+            ctx.violation("model-impl-disagreement", "Calendar model and binary differ on creation date %d (%s): %s" % (ts, why, diffs[0][:300]),
+                          dict(case, diffs=diffs))
+            continue
+        if kind == "boundary" and why in ("largest representable", "largest+1", "year 10000", "2^31 (2038-01-19)"):
+            ctx.sample({"creation_date": ts, "why": why, "row": row.decode()}, cap=8)
 
 
 def repro(data):
@@ -899,7 +1057,7 @@ def run(ctx):
                     ctx.count("files_%s" % ("single" if x["_paths"] is None else min(x["file_count"], 5)))
                     if x["content_size"] >= 1 << 63: ctx.count("content_size_ge_2^63")
                     if x["creation_date"] is not None:
-                        ctx.count("date_" + ("year<=9999" if x["creation_date"] < 253402300800 else "year>9999" if x["creation_date"] <= CHRONO_SURE_IN else "unrepresentable"))
+                        ctx.count("date_" + ("year<=9999" if x["creation_date"] < 253402300800 else "year>9999" if x["creation_date"] <= CHRONO_MAX else "unrepresentable"))
                     if any(ord(ch) < 32 or ord(ch) > 126 for s in [x["name"], x["comment"] or "", x["source"] or "", x["created_by"] or ""] for ch in s):
                         ctx.count("unicode_or_control_in_strings")
             else:
@@ -937,6 +1095,7 @@ def run(ctx):
                 ctx.count("impl_rejects_unmodelled:" + kind)
             if kind == "valid" and accepted:
                 ctx.sample({"torrent_hex": data.hex()[:400], "json": runs["json"][1].decode("utf-8", "replace")[:400]}, cap=3)
+        calendar_sweep(ctx, tmp)
     finally:
         shutil.rmtree(tmp, ignore_errors=True)
     # end to end with create (X5, c07_created_bytes_show_back): real `create`, then `show` of the written file, against the
@@ -948,9 +1107,9 @@ def run(ctx):
 
 def finish(ctx):
     ctx.assumptions += [
-        "chrono renders a representable timestamp as the proleptic Gregorian `YYYY-MM-DD HH:MM:SS UTC` (Section variable cal; "
-        "compared against Python datetime / own civil-from-days code in every run)",
-        "Bytes Display (C16) is the Section variable human; compared against an independent Python rendering in every run",
+        "chrono 0.4.38's rendering of the creation date is MODELLED (Model/Calendar.v: closed-form civil-from-days where chrono "
+        "walks its tables; proved for every second count) and tied to the real binary by the calendar sweep of this run; Bytes "
+        "Display is C16's model (ByteSize.bs_display); neither is a Section variable of the run any more",
         "url-crate normal form of update-url and of node hosts (Section variables url_norm, host_disp); generated in normal form",
         "every integer in an accepted file fits i64 (bendy Value decoding in Infohash::from_input; exercised by the wideint mutants)",
     ]
@@ -964,9 +1123,15 @@ def finish(ctx):
              "written file, compared with the extracted composition build -> encode -> loader -> report and with the command line "
              "itself; the MD5 texts the loader carries (counts x5_md5_*): `md5sum` entries of the written file and the extracted "
              "build -> encode -> from_input against hashlib's MD5 of the contents under --md5 and none otherwise; "
-             "distinct by (options given, tree kind, number of files)",
+             "distinct by (options given, tree kind, number of files). Calendar (counts calendar_*): a deterministic boundary "
+             "sweep (first/last second of every month and Feb 28/29/Mar 1 of 26 years - leap, common, century, 9999/10000, "
+             "262141/262142 -, 1999-12-31/2000-01-01, 2^31, 2^32, the largest representable second 8210266876799 +-2, 2^62, 2^63-1, "
+             "2^63, 2^64-1, each +-1) plus random second counts (log-uniform in size and uniform over chrono's range): the Creation "
+             "Date row the real binary prints for a minimal torrent with that creation date against the extracted Calendar.cal, "
+             "chrono_accepts and cal_parse (the row read back must be the stored integer), the whole tab report against "
+             "show_concrete, and against the Python calendar of this file; distinct by second count",
         trusted_base=["Coq 8.16.1 kernel (coqc)", "tools/rs2v_summary.py (GenSummary)",
-                      "extraction with ExtrOcamlBasic + runner/driver.d/summary.ml, runner/driver.d/endtoendshow.ml", "real imdl binary (debug profile)",
+                      "extraction with ExtrOcamlBasic + runner/driver.d/summary.ml, runner/driver.d/calendar.ml, runner/driver.d/endtoendshow.ml", "real imdl binary (debug profile)",
                       "Python oracle in tools/props/c07.py (lib.bdecode_strict, hashlib, datetime, posixpath)"],
     )
 
